@@ -18,12 +18,12 @@ def _tasks(P, kinds, optmask):
     out = []
     for i, k in enumerate(kinds):
         if k == "var":
-            out.append(make_task(P, "ABCD"[i], "var", optional=optmask[i], vmin=True, vmax=True))
+            out.append(make_task(P, "ABCDEFG"[i], "var", optional=optmask[i], vmin=True, vmax=True))
         elif k == "varfree":
-            t = make_task(P, "ABCD"[i], "var", optional=optmask[i], vmin=True)
+            t = make_task(P, "ABCDEFG"[i], "var", optional=optmask[i], vmin=True)
             out.append(t)
         else:
-            out.append(make_task(P, "ABCD"[i], k, optional=optmask[i]))
+            out.append(make_task(P, "ABCDEFG"[i], k, optional=optmask[i]))
     return out
 
 
